@@ -212,4 +212,41 @@ theorem max0_of_nonneg (sqrt : α → α) (eps x : α) (hx : 0 ≤ x) : (ordOps 
 
 end ordops
 
+section flcwin
+variable {α : Type}
+
+/-- the masked window the FLC-family formulas see at translation `t`: weights = (rotated) mask, `a` = target window,
+`h` = (rotated) template — an abbreviation for the `Win.mk …` the formula theorems are stated about -/
+@[reducible] def flcWin (ms : List Nat) (t : List Int) (f G Wm : List Int → α) : Win α :=
+  ⟨ms, fun k => Wm (natsToInts k), fun k => f (specIdx ms t k), fun k => G (natsToInts k)⟩
+
+end flcwin
+
+section corrwin
+variable {α : Type} [Field α] [LinearOrder α] [IsStrictOrderedRing α]
+
+/-- the rotated standardised masked template CORR / CAM correlate the target with (`corr_setup` + `corr_scoring`) -/
+def corrH (sqrt : α → α) (eps : α) (ms : List Nat) (rot : (List Int → α) → (List Int → α)) (g Wm : List Int → α) :
+    List Int → α :=
+  rot (fun x => (ordOps sqrt eps).mul
+    (normT (ordOps sqrt eps) (normStats (ordOps sqrt eps) ms g Wm (maskSum (ordOps sqrt eps) ms Wm)) g Wm x) (Wm x))
+
+/-- the window CORR / CAM see with the full-box mask: weights 1, target window, template `H` -/
+@[reducible] def corrWin (ms : List Nat) (t : List Int) (f H : List Int → α) : Win α :=
+  ⟨ms, fun _ => 1, fun k => f (specIdx ms t k), fun k => H (natsToInts k)⟩
+
+end corrwin
+
+section mccwin
+variable {α : Type} [Field α] [LinearOrder α] [IsStrictOrderedRing α]
+
+/-- the window MCC sees at translation `t`: weights `tm(t+k)·W(k)` (target mask × template mask), target window,
+template standardised with the statistics `normalize_template` computes under the template mask -/
+def mccWin (sqrt : α → α) (eps : α) (ms : List Nat) (t : List Int) (f tm G W : List Int → α) : Win α :=
+  ⟨ms, fun k => tm (specIdx ms t k) * W (natsToInts k), fun k => f (specIdx ms t k),
+   fun k => (G (natsToInts k) - (normStats (ordOps sqrt eps) ms G W (maskSum (ordOps sqrt eps) ms W)).1)
+              / (normStats (ordOps sqrt eps) ms G W (maskSum (ordOps sqrt eps) ms W)).2⟩
+
+end mccwin
+
 end Pm.C03
